@@ -4,35 +4,15 @@
    Variants fix what decides the code path: KIND/shape, REFL, ROT0 (rotation == 0 exactly), MAG1 (magnification == 1 exactly). */
 #include "prologue.h"
 #include "C11/rep.h"
+#include "C10/common.h"
 #define GET_OFFSETS _ZNK5gdstk10Repetition11get_offsetsERNS_5ArrayINS_4Vec2EEE
 #define TRANSFORM _ZN5gdstk10Repetition9transformEdbd
 typedef ARGT__ZNK5gdstk10Repetition11get_offsetsERNS_5ArrayINS_4Vec2EEE_1 VArr;
 #define RR 2
-typedef int32_t OI;        /* oracle integers: everything is far below 2^15 */
-static OI C_ = 1, S_ = 0;
-#ifndef REAL
-NUM ie_cos(NUM a) { return NUM_OF_INT(C_); }
-NUM ie_sin(NUM a) { return NUM_OF_INT(S_); }
-#endif
 int main(void) {
   Rep r; rep_build(&r, KIND, A, B, RR);
   OI m = MAG1 ? 1 : (OI)nd_range(-3, 3); if (!MAG1) ASSUME(m != 1);
-  NUM rot = NUM_OF_INT(0);
-#if !ROT0
-#if defined(__CPROVER__) && !defined(AXIS_ONLY)
-  C_ = (OI)nd_range(-2, 2); S_ = (OI)nd_range(-2, 2); ASSUME(C_ != 0 || S_ != 0);
-  rot = NUM_OF_INT(1);      /* any non-zero angle: its cosine and sine are the free symbols */
-#else
-  /* native runs and the -DAXIS_ONLY retry: rotations realisable by an exact angle k*pi/2, k = 1..3 */
-  { int k = (int)nd_range(1, 3); C_ = k == 2 ? -1 : 0; S_ = k == 1 ? 1 : k == 3 ? -1 : 0;
-#ifdef REAL
-    rot = k == 1 ? 1.5707963267948966 : k == 2 ? 3.141592653589793 : -1.5707963267948966;
-#else
-    rot = NUM_OF_INT(1);
-#endif
-  }
-#endif
-#endif
+  NUM rot = pick_rotation(ROT0);
   TRANSFORM(&r, NUM_OF_INT(m), REFL, rot);
   VArr off; off.f0 = 0; off.f1 = 0; off.f2 = 0;
   GET_OFFSETS(&r, &off);
